@@ -13,12 +13,12 @@ def run_cases(ctx, cases):
 
 def stream_of(case):
     t = case.split(" ")
-    return b"".join(unhexs(x) for x in t[4:])
+    return b"".join(unhexs(x) for x in t[4:] if x != "!")
 
 
 def describe(case):
     t = case.split(" ")
-    chunks = [unhexs(x) for x in t[4:]]
+    chunks = [unhexs(x) for x in t[4:] if x != "!"]
     return f"{t[0]} flavour={t[1]} tail={t[3]} stream={b''.join(chunks)!r} chunk_lengths={[len(c) for c in chunks][:40]}"
 
 
